@@ -459,6 +459,61 @@ def _sub_bodies(node):
     return []
 
 
+import functools
+
+
+@functools.lru_cache(maxsize=20000)
+def canon_snippet(text):
+    """A reference fragment written in a rule (`'if now >= head: break'`, `'x = x + 1'`) in the canonical spelling the loader gives
+    the analysed source (orderings with < / <=, `x op= e`, un-negated if/else).  Fragments that do not parse on their own (one-line
+    if/else, cut-off calls) are returned unchanged."""
+    if not isinstance(text, str) or not any(t in text for t in ('>', ' = ', 'not ')):
+        return text
+    for suffix in ('', ' pass', ': pass'):
+        try:
+            tree = ast.parse(text + suffix)
+        except (SyntaxError, ValueError, RecursionError):
+            continue
+        try:
+            _AugCanon().visit(tree)
+            _IfCanon().visit(tree)
+            _CmpCanon().visit(tree)
+            out = ' '.join(ast.unparse(ast.fix_missing_locations(tree)).split())
+        except Exception:
+            return text
+        if suffix and out.endswith(suffix):
+            out = out[:-len(suffix)]
+        # keep the author's spelling when nothing but layout changed
+        return out if out != ' '.join(text.split()) else text
+    return text
+
+
+class NormStr(str):
+    """text of a node; compares equal to a reference fragment in either spelling (see canon_snippet)"""
+    __slots__ = ()
+
+    def __eq__(self, other):
+        if str.__eq__(self, other) is True:
+            return True
+        if type(other) is str:
+            return str.__eq__(self, canon_snippet(other)) is True
+        return False
+
+    def __ne__(self, other):
+        return not self.__eq__(other)
+
+    __hash__ = str.__hash__
+
+    def __contains__(self, snippet):
+        return str.__contains__(self, snippet) or (type(snippet) is str and str.__contains__(self, canon_snippet(snippet)))
+
+    def startswith(self, prefix, *a):
+        return str.startswith(self, prefix, *a) or (type(prefix) is str and str.startswith(self, canon_snippet(prefix), *a))
+
+    def endswith(self, suffix, *a):
+        return str.endswith(self, suffix, *a) or (type(suffix) is str and str.endswith(self, canon_snippet(suffix), *a))
+
+
 def norm(node):
     """Normalised source text of a node: used for construct keys (no line numbers)."""
     try:
@@ -468,7 +523,7 @@ def norm(node):
     s = ' '.join(s.split())
     if len(s) > 160:
         s = s[:157] + '...'
-    return s
+    return NormStr(s)
 
 
 _PINNED_LOCALS = None
@@ -571,6 +626,9 @@ class Src(str):
     def __contains__(self, snippet):
         if self._find_bounded(snippet) >= 0:
             return True
+        c = canon_snippet(snippet)
+        if c is not snippet and self._find_bounded(c) >= 0:
+            return True
         for v, env in self._variants(snippet) or ():
             if str.__contains__(self, v):
                 self._env = env
@@ -581,6 +639,11 @@ class Src(str):
         i = self._find_bounded(snippet, *a[:1]) if len(a) <= 1 else str.find(self, snippet, *a)
         if i >= 0:
             return i
+        c = canon_snippet(snippet)
+        if c is not snippet:
+            i = self._find_bounded(c, *a[:1]) if len(a) <= 1 else str.find(self, c, *a)
+            if i >= 0:
+                return i
         for v, env in self._variants(snippet) or ():
             i = str.find(self, v, *a)
             if i >= 0:
@@ -590,6 +653,8 @@ class Src(str):
 
     def endswith(self, snippet, *a):
         if str.endswith(self, snippet, *a):
+            return True
+        if isinstance(snippet, str) and str.endswith(self, canon_snippet(snippet), *a):
             return True
         if isinstance(snippet, str):
             for v, env in self._variants(snippet) or ():
@@ -708,17 +773,63 @@ def _outer_functions(m):
 
 
 def _is_noise(st):
-    """statements without any effect on the properties: `pass` and debug-level log lines"""
+    """statements without any effect on the properties: `pass` and debug/info-level log lines (warnings and errors are what the
+    properties mean by "logged" and stay)"""
     if isinstance(st, ast.Pass):
         return True
+    if isinstance(st, ast.Expr) and isinstance(st.value, ast.Call) and isinstance(st.value.func, ast.Name) and st.value.func.id == 'print':
+        return True
     if isinstance(st, ast.Expr) and isinstance(st.value, ast.Call) and isinstance(st.value.func, ast.Attribute) \
-            and st.value.func.attr == 'debug' and isinstance(st.value.func.value, ast.Name) \
+            and st.value.func.attr in ('debug', 'info') and isinstance(st.value.func.value, ast.Name) \
             and st.value.func.value.id in ('_logger', 'logger', 'logging'):
         return True
     return False
 
 
+class _AugCanon(ast.NodeTransformer):
+    """`x = x op e` and `x op= e` are one statement to every rule: the first is rewritten as the second (names and attributes only;
+    `x = e op x` is left alone, the operator need not commute)"""
+
+    def visit_Assign(self, node):
+        self.generic_visit(node)
+        if len(node.targets) == 1 and isinstance(node.targets[0], (ast.Name, ast.Attribute)) and isinstance(node.value, ast.BinOp) \
+                and isinstance(node.value.left, (ast.Name, ast.Attribute)) \
+                and ast.dump(node.value.left).replace('Load()', 'X') == ast.dump(node.targets[0]).replace('Store()', 'X').replace('Load()', 'X') \
+                and not isinstance(node.value.op, (ast.MatMult,)):
+            return ast.copy_location(ast.AugAssign(target=node.targets[0], op=node.value.op, value=node.value.right), node)
+        return node
+
+
+class _IfCanon(ast.NodeTransformer):
+    """`if not c: A else: B` is `if c: B else: A` (only for a plain else, never for an elif chain)"""
+
+    def visit_If(self, node):
+        self.generic_visit(node)
+        if node.orelse and not (len(node.orelse) == 1 and isinstance(node.orelse[0], ast.If)) \
+                and isinstance(node.test, ast.UnaryOp) and isinstance(node.test.op, ast.Not):
+            node.test = node.test.operand
+            node.body, node.orelse = node.orelse, node.body
+        return node
+
+
+class _CmpCanon(ast.NodeTransformer):
+    """`a > b` is `b < a` and `a >= b` is `b <= a` (single comparisons only): every ordering is written with < / <="""
+
+    def visit_Compare(self, node):
+        self.generic_visit(node)
+        if len(node.ops) == 1 and isinstance(node.ops[0], (ast.Gt, ast.GtE)):
+            op = ast.Lt() if isinstance(node.ops[0], ast.Gt) else ast.LtE()
+            return ast.copy_location(ast.Compare(left=node.comparators[0], ops=[op], comparators=[node.left]), node)
+        return node
+
+
 def strip_noise(tree):
+    _AugCanon().visit(tree)
+    _IfCanon().visit(tree)
+    _CmpCanon().visit(tree)
+    for par in ast.walk(tree):
+        for child in ast.iter_child_nodes(par):
+            child._parent = par
     """Drop `pass` and `_logger.debug(...)` statements from statement lists that keep at least one other statement, so
     that position-bound clauses (first statement, exact statement list) are not disturbed by them."""
     for node in ast.walk(tree):
